@@ -28,7 +28,7 @@ def p_le(I, a, n):
 
 
 def p_sl(I, a, n):
-    return mk_bytes(T.sl(_b(I, a[0]), as_int_term(a[1]), as_int_term(a[2])))
+    return mk_bytes(T.window(_b(I, a[0]), as_int_term(a[1]), as_int_term(a[2])))
 
 
 def p_cat(I, a, n):
